@@ -6,7 +6,7 @@ SOURCES = ["src/pointset/algorithms/NormalAndCurvatureEstimation.cpp", "src/poin
 NOINLINE = True
 CLAIM = ("NormalAndCurvatureEstimation (Vector2d/3d, Homogeneous2d/3d; symbolic clouds; neighbour search stubbed to 'the cloud is the "
          "neighbourhood', SelfAdjointEigenSolver by contract): the estimated normal has unit length and a non-positive dot product with "
-         "the point, curvature lies in [0, 1/DIM], the homogeneous last coordinate stays 0; in 2D additionally the normal is an "
+         "the point (all three overload families: normals, +curvatures, +reliabilities in 2D; normals+curvatures in 3D), curvature lies in [0, 1/DIM], the homogeneous last coordinate stays 0; in 2D additionally the normal is an "
          "eigenvector of the two-pass covariance of the neighbours for the smallest eigenvalue (= curvature * trace), no unit direction "
          "has smaller variance, and a cloud on a line not through the origin gets the line normal and zero curvature")
 BOUNDS = dict(quick="clouds of k = 3 points (2D) / 4 points (3D), coordinates in [-100,100], covariance trace >= 1e-6",
@@ -19,6 +19,7 @@ def setup(eng):
     from vf import contracts
     contracts.eigen_solver_contract(eng)
     contracts.install_overrides(eng)
+    eng.cut_eigen_input = True
     PTR = ir.PtrT(ir.I8)
 
     def knn(eng, st, fr, ins, a):
@@ -41,16 +42,20 @@ def entries(tier):
     b = dict(paths=200, feas_ms=300)
     quick = tier == "quick"
     cap = 8 if quick else 300
-    es.append(Entry("c09_v2d", params=dict(k=3, planar=0, point=2), setup=setup, budget=b, cap=cap))
-    es.append(Entry("c09_h2d", params=dict(k=3, planar=0, point=2), setup=setup, budget=b, cap=cap))
+    es.append(Entry("c09_v2d", params=dict(k=3, planar=0, point=2, overload=0), setup=setup, budget=b, cap=cap))
+    es.append(Entry("c09_v2d", params=dict(k=3, planar=0, point=1, overload=1), setup=setup, budget=b, cap=cap))
+    es.append(Entry("c09_v2d", params=dict(k=3, planar=0, point=0, overload=2), setup=setup, budget=b, cap=cap, kinds=("check", "witness", "mem", "abort", "lemma")))
+    es.append(Entry("c09_h2d", params=dict(k=3, planar=0, point=2, overload=0), setup=setup, budget=b, cap=cap))
+    es.append(Entry("c09_h2d", params=dict(k=3, planar=0, point=1, overload=2), setup=setup, budget=b, cap=cap, kinds=("check", "witness", "mem", "abort", "lemma")))
     for fn in ("c09_v3d", "c09_h3d"):
-        es.append(Entry(fn, params=dict(k=4, planar=0, point=3), setup=setup, budget=b, cap=cap,
-                        skip_ids=(HEAVY + ("toward-the-sensor", "curvature-in") if quick else ()),
-                        note="3D quick tier: unit length only; the other obligations are attempted in the thorough tier" if quick else ""))
+        es.append(Entry(fn, params=dict(k=4, planar=0, point=3, overload=0), setup=setup, budget=b, cap=cap,
+                        skip_ids=(HEAVY + ("curvature-in",) if quick else ()),
+                        note="3D quick tier: unit length, facing, covariance lemmas; eigenvector / least variance are attempted in the thorough tier" if quick else ""))
     if not quick:
-        es.append(Entry("c09_v2d", params=dict(k=3, planar=1, point=2), setup=setup, budget=b, cap=300))
-        es.append(Entry("c09_v2d", params=dict(k=4, planar=0, point=3), setup=setup, budget=b, cap=300))
-        es.append(Entry("c09_v3d", params=dict(k=4, planar=1, point=3), setup=setup, budget=b, cap=300))
+        es.append(Entry("c09_v2d", params=dict(k=3, planar=1, point=2, overload=0), setup=setup, budget=b, cap=300))
+        es.append(Entry("c09_h2d", params=dict(k=3, planar=1, point=0, overload=2), setup=setup, budget=b, cap=300))
+        es.append(Entry("c09_v2d", params=dict(k=4, planar=0, point=3, overload=0), setup=setup, budget=b, cap=300))
+        es.append(Entry("c09_v3d", params=dict(k=4, planar=1, point=3, overload=0), setup=setup, budget=b, cap=300))
     return es
 
 
@@ -65,8 +70,8 @@ def tv_vectors(tier):
             for i, (x, y) in enumerate(pts):
                 a["p%d" % (3 * i)] = float(x)
                 a["p%d" % (3 * i + 1)] = float(y)
-            for q in (0, 2):
-                out.append((fn, dict(k=3, planar=0, point=q), a))
+            for q, ov in ((0, 0), (2, 1), (1, 2)):
+                out.append((fn, dict(k=3, planar=0, point=q, overload=ov), a))
     for fn in ("c09_v3d", "c09_h3d"):
         for z in (0.5, -0.5):
             a = dict(u)
@@ -74,5 +79,6 @@ def tv_vectors(tier):
                 a["p%d" % (3 * i)] = float(x)
                 a["p%d" % (3 * i + 1)] = float(y)
                 a["p%d" % (3 * i + 2)] = z + 0.01 * i
-            out.append((fn, dict(k=4, planar=0, point=1), a))
+            for ov in (0, 1, 2):
+                out.append((fn, dict(k=4, planar=0, point=1, overload=ov), a))
     return out
